@@ -400,6 +400,9 @@ def run(prop, tier):
         ctx.assumptions += ["affinity-event legality is observed, not judged (soft guard); only its effects and oversubscription are checked",
                             "execute of a dead thread is outside the quantified space",
                             "configurations: <=3 threads, <=2 looms, <=2 physical CPUs per loom"]
+        from checks import soak
+        if not ctx.out_of_time(0.9):
+            soak.run_for(ctx, build, scratch, prop, tier)
         return ctx.finish()
     finally:
         scratch.cleanup()
